@@ -1,5 +1,9 @@
 -- Root of the `WellenModel` library.
+import WellenModel.Gen.Tables
 import WellenModel.Model.Proto
 import WellenModel.Model.Offset
+import WellenModel.Model.Bits
+import WellenModel.Model.Store
+import WellenModel.Model.Spec
 import WellenModel.Proofs.Offset
 import WellenModel.Props.C05
